@@ -185,9 +185,15 @@ def run_config(cx, cfg, prog):
                 # buffer-only: nothing is awaited, the framed socket (`self.stream`) is not touched, and every call is the push itself
                 # or a local helper that was looked through (its own calls are in the event list)
                 sock = field(('param', 'self'), 'stream')
+                ACCESSORS = ('codec', 'get_ref', 'max_length', 'len', 'is_empty', 'capacity')
+
+                def touches_socket(e_):
+                    # a method called on the framed socket itself (or on something reached through it) other than a pure accessor
+                    a0 = (e_.data.get('args') or [None])[0]
+                    return isinstance(a0, tuple) and mentions(a0, sock) and e_.data.get('name') not in ACCESSORS
                 ok = not [e for e in w.events if e.kind == 'await'] and all(
-                    (e.data.get('name') == 'push' or (e.data.get('local') and e.data.get('inlined')))
-                    and not any(mentions(a, sock) for a in (e.data.get('args') or []) if isinstance(a, tuple))
+                    (e.data.get('name') == 'push' or (e.data.get('local') and e.data.get('inlined')) or not e.data.get('local'))
+                    and not touches_socket(e)
                     for e in w.events if e.kind == 'call')
                 return ('buffer', None) if ok else ('io', 'BufferedLineStream::feed is no longer buffer-only')
             if nm in CPU_AWAITS:
